@@ -119,8 +119,13 @@ fn main() {
             // show what generate() does with a source file
             let path = m.get("file").expect("--file");
             let src = std::fs::read_to_string(path).unwrap();
-            let a = analyze::run_generate_source(&src);
-            println!("{}", json!({"outcome": format!("{:?}", a.outcome), "graph": a.graph.map(|g| g.to_json())}));
+            // optionally on a thread with a given stack size (KiB); the default thread stack of std is 2 MiB
+            let a = match m.get("stack-kib").map(|s| s.parse::<usize>().unwrap()) {
+                Some(kib) => std::thread::Builder::new().stack_size(kib * 1024).spawn(move || analyze::run_generate_source(&src)).unwrap().join().unwrap(),
+                None => analyze::run_generate_source(&src),
+            };
+            let brief = m.contains_key("brief");
+            println!("{}", json!({"outcome": format!("{:?}", a.outcome).chars().take(if brief { 300 } else { usize::MAX }).collect::<String>(), "graph": if brief { None } else { a.graph.map(|g| g.to_json()) }}));
         }
         other => {
             eprintln!("unknown subcommand {other}");
